@@ -4,3 +4,4 @@ import AJ.Props.C04Hist
 import AJ.Props.C04Rem
 import AJ.Props.C04Copy
 import AJ.Props.C14Hist
+import AJ.Props.C04Deser
